@@ -17,7 +17,8 @@ RULE = (
     'uniform, convex, concave; constant specific yield 0.5 or 2) are written '
     'to text files / loaded, and the whole real workflow load -> classify -> '
     'set-zeta-grid -> rise -> recession is run on every word of the stated '
-    'length.  Oracle: average_recession_time(z) - T_truth(z) and '
+    'length, with the complete record and with one water-level sample '
+    'missing inside each dry spell in turn (two gap-free stretches).  Oracle: average_recession_time(z) - T_truth(z) and '
     'average_rising_depth(z) - Sy z are constant over the curve; all '
     'aligned pieces coincide wherever they overlap; a curve must be '
     'assembled whenever two recorded pieces share a level.  Words are '
@@ -39,6 +40,12 @@ CONFIGS = [  # (shape, sy, dt, grid step)
 A0 = 16
 
 
+def decoy():
+    from mc.lib import decoy as decoy_mod
+    decoy_mod.workflow()
+    decoy_mod.functions()
+
+
 def BOUND(tier):
     return {
         'quick': 'all words (S D)^m for m<=2 (k in 1..3, up in {2,3,5}, d in '
@@ -49,15 +56,22 @@ def BOUND(tier):
     }[tier]
 
 
-def word_space(pairs, config, cli):
+def word_space(pairs, config, cli, gaps=False):
     size, decode_word = events.word_space_events(pairs)
+    variants = pairs + 1 if gaps else 1
 
     def decode(i):
-        return {'kind': 'cli' if cli else 'db', 'config': list(config),
-                'word': decode_word(i)}
-    return Space('%s/(S D)^%d/%s Sy=%g dt=%d step=%g' % (
-        ('main(argv)' if cli else 'workflow', pairs) + tuple(config)),
-        size, decode)
+        case = {'kind': 'cli' if cli else 'db', 'config': list(config),
+                'word': decode_word(i // variants)}
+        if i % variants:
+            # one water-level sample missing inside the k-th dry spell: the
+            # record falls into two gap-free stretches, the truth is the same
+            case['gap_in_dry_spell'] = i % variants - 1
+        return case
+    return Space('%s/(S D)^%d%s/%s Sy=%g dt=%d step=%g' % (
+        ('main(argv)' if cli else 'workflow', pairs,
+         ' x {no gap, gap in each dry spell}' if gaps else '')
+        + tuple(config)), size * variants, decode)
 
 
 def spaces(tier):
@@ -66,7 +80,7 @@ def spaces(tier):
         for config in CONFIGS:
             out.append(word_space(1, config, True))
         for config in CONFIGS:
-            out.append(word_space(2, config, False))
+            out.append(word_space(2, config, False, gaps=True))
         out.append(word_space(2, CONFIGS[0], True))
         out.append(word_space(3, CONFIGS[1], False))
     else:
@@ -74,8 +88,8 @@ def spaces(tier):
             out.append(word_space(1, config, True))
             out.append(word_space(2, config, True))
         for config in CONFIGS:
-            out.append(word_space(2, config, False))
-            out.append(word_space(3, config, False))
+            out.append(word_space(2, config, False, gaps=True))
+            out.append(word_space(3, config, False, gaps=True))
     return out
 
 
@@ -168,6 +182,11 @@ def run_case(case):
     if ds is None:
         return Result(nontrivial=False, outcome='outside-lattice',
                       counters={'words_outside_the_truth_family': 1})
+    if case.get('gap_in_dry_spell') is not None:
+        first, _a, d = ds['dries'][case['gap_in_dry_spell']]
+        k = first + max(1, d // 2)
+        if 0 < k < len(ds['level']) - 1:
+            ds['level'][k] = None
     db = None
     if case['kind'] == 'cli':
         db, errors = events.workflow_cli(ds, step)
